@@ -16,7 +16,8 @@ package main
 // Context of an event: in_defer (inside a `defer` statement or a function literal that is deferred),
 // go_depth (number of enclosing `go` statements), loop_depth (number of enclosing for/range
 // statements, counted from the innermost enclosing function literal), clo (number of enclosing
-// function literals that are neither the operand of go nor of defer, e.g. a callback).
+// function literals that are neither the operand of go nor of defer, e.g. a callback), cond (number of enclosing
+// if / else bodies and switch / select case bodies, counted from the innermost enclosing loop or literal).
 // The checks over these lists are Coq definitions (Model/Skel.v), proved by computation in Props/.
 
 import (
@@ -33,6 +34,7 @@ type skelCtx struct {
 	goDepth int
 	loop    int
 	clo     int
+	cond    int // enclosing if / else bodies and switch / select case bodies, counted from the innermost enclosing loop or function literal
 }
 
 func render(n ast.Node) string {
@@ -58,7 +60,7 @@ type skelWalker struct {
 }
 
 func (w *skelWalker) emit(c skelCtx, k string) {
-	w.out = append(w.out, fmt.Sprintf("mkev (%s) %v %d %d %d", k, c.inDefer, c.goDepth, c.loop, c.clo))
+	w.out = append(w.out, fmt.Sprintf("mkev (%s) %v %d %d %d %d", k, c.inDefer, c.goDepth, c.loop, c.clo, c.cond))
 }
 
 func (w *skelWalker) walk(n ast.Node, c skelCtx) {
@@ -74,6 +76,7 @@ func (w *skelWalker) walk(n ast.Node, c skelCtx) {
 		c2 := c
 		c2.goDepth++
 		c2.loop = 0
+		c2.cond = 0
 		c2.inDefer = false
 		if fl, ok := x.Call.Fun.(*ast.FuncLit); ok {
 			w.walk(fl.Body, c2)
@@ -86,6 +89,7 @@ func (w *skelWalker) walk(n ast.Node, c skelCtx) {
 		c2.inDefer = true
 		if fl, ok := x.Call.Fun.(*ast.FuncLit); ok {
 			c2.loop = 0
+			c2.cond = 0
 			w.walk(fl.Body, c2)
 		} else {
 			for _, a := range x.Call.Args {
@@ -98,12 +102,42 @@ func (w *skelWalker) walk(n ast.Node, c skelCtx) {
 		c2 := c
 		c2.clo++
 		c2.loop = 0
+		c2.cond = 0
 		w.walk(x.Body, c2)
+		return
+	case *ast.IfStmt:
+		w.walk(x.Init, c)
+		w.walk(x.Cond, c)
+		c2 := c
+		c2.cond++
+		w.walk(x.Body, c2)
+		if x.Else != nil {
+			w.walk(x.Else, c2)
+		}
+		return
+	case *ast.CaseClause:
+		for _, e := range x.List {
+			w.walk(e, c)
+		}
+		c2 := c
+		c2.cond++
+		for _, st := range x.Body {
+			w.walk(st, c2)
+		}
+		return
+	case *ast.CommClause:
+		w.walk(x.Comm, c)
+		c2 := c
+		c2.cond++
+		for _, st := range x.Body {
+			w.walk(st, c2)
+		}
 		return
 	case *ast.ForStmt:
 		w.walk(x.Init, c)
 		c2 := c
 		c2.loop++
+		c2.cond = 0
 		w.walk(x.Cond, c2)
 		w.walk(x.Body, c2)
 		w.walk(x.Post, c2)
@@ -112,6 +146,7 @@ func (w *skelWalker) walk(n ast.Node, c skelCtx) {
 		w.emit(c, fmt.Sprintf("ERange %s", coqStr(render(x.X))))
 		c2 := c
 		c2.loop++
+		c2.cond = 0
 		w.walk(x.Body, c2)
 		return
 	case *ast.SendStmt:
